@@ -50,6 +50,7 @@ func runC11(c *Ctx) {
 		}
 		if sc.M > 8000 && idx < gridSize+n {
 			sc.M = 8000
+			sc.Len = min(sc.Len, 8000)
 			sc.R, sc.W = min(sc.R, 8000), min(sc.W, 8000)
 			sc.Core = sc.Core[:8000]
 			sc.PC %= 8000
@@ -59,6 +60,7 @@ func runC11(c *Ctx) {
 			}
 		}
 		sc.P = 2
+		sc.Bystanders = 0 // every step of this check runs on a fresh single-warrior simulator
 		m, rl, wl := sc.M, sc.R, sc.W
 		core := sc.Core
 		pc := sc.PC
